@@ -744,6 +744,9 @@ func iohelpLayoutRules(c *core.Ctx, p *load.Prog, rWidth, rGUID, rBuild string) 
 				okd = a != "" && a == b
 			}
 		}
+		if !okd && f.callsThroughParam("ReadDateBytes", "buffer", 0) {
+			okd = true
+		}
 		c.Check(rWidth, "ReadDate = ReadDateBytes(scratch)", f.pos(), okd, "ReadDate neither decodes the scratch with ReadDateBytes nor applies the conversion ReadDateBytes applies to the int64 it reads")
 	}
 	// a date writer in iohelp (the generator's templates inline the conversion
@@ -1197,6 +1200,9 @@ func iohelpStreamWidths(c *core.Ctx, p *load.Prog, rule string) {
 						okd = true
 					}
 				}
+				if !okd && f.callsThroughParam("Read"+stem+"Bytes", "buffer", 0) {
+					okd = true
+				}
 				c.Check(rule, "Read"+stem+" decodes the scratch with Read"+stem+"Bytes", f.pos(), okd, "no call Read"+stem+"Bytes(<reader>.buffer)")
 			}
 		}
@@ -1235,6 +1241,9 @@ func iohelpStreamWidths(c *core.Ctx, p *load.Prog, rule string) {
 					if pts, zero, unk := f.instCasts(); !unk && len(pts) == 1 && zero && pts[0].String() == goTypeOfStem[stem] {
 						oke = true
 					}
+				}
+				if !oke && f.callsThroughParam("Write"+stem+"Bytes", "buffer", 0) {
+					oke = true
 				}
 				c.Check(rule, "Write"+stem+" encodes into the scratch with Write"+stem+"Bytes", f.pos(), oke, "no call Write"+stem+"Bytes(<writer>.buffer, …)")
 			}
@@ -3125,6 +3134,41 @@ func (e *instEnv) resolve(x ast.Expr) (*instEnv, ast.Expr) {
 		env, x = env.parent, a
 	}
 	return env, ast.Unparen(x)
+}
+
+// callsThroughParam: somewhere in the helpers f calls, a function-valued
+// parameter bound at the call to the package function fn is called with, as
+// argument number argIdx, the wrapper's scratch field (x.<field>, directly or
+// through a parameter bound to it or to a prefix of it):
+// readScratch(r, r.buffer[:2], ReadUint16Bytes) … decode(r.buffer).
+func (f *ioFn) callsThroughParam(fn, field string, argIdx int) bool {
+	found := false
+	f.instWalk(func(env *instEnv, n ast.Node) bool {
+		call, ok := n.(*ast.CallExpr)
+		if !ok || found || len(call.Args) <= argIdx {
+			return true
+		}
+		id, ok := ast.Unparen(call.Fun).(*ast.Ident)
+		if !ok {
+			return true
+		}
+		if _, isVar := env.owner.info.ObjectOf(id).(*types.Var); !isVar {
+			return true
+		}
+		_, bound := env.resolve(id)
+		if wire.Canon(bound) != fn {
+			return true
+		}
+		_, arg := env.resolve(call.Args[argIdx])
+		if se, isSl := arg.(*ast.SliceExpr); isSl {
+			arg = ast.Unparen(se.X)
+		}
+		if sel, isSel := arg.(*ast.SelectorExpr); isSel && sel.Sel.Name == field {
+			found = true
+		}
+		return true
+	})
+	return found
 }
 
 func (f *ioFn) instWalk(visit func(env *instEnv, n ast.Node) bool) {
